@@ -63,4 +63,42 @@ theorem profile_injective (x y : ℝ) (h : Real.tanh x = Real.tanh y) : x = y :=
   · exact absurd h (DV.C03.tanh_lt_tanh h1).ne
   · exact absurd h.symm (DV.C03.tanh_lt_tanh h1).ne
 
+
+section start
+open Finset BigOperators DV.Merge DV.MergeInv DV.Label DV.LabelInv DV.GridGeom DV.Render DV.BallConn DV.C02 DV.C01
+
+/-- **The initial estimate that refinement starts from is accurate to grid resolution.**  For every droplet of a well-separated,
+resolved emulsion on a Cartesian grid in 1–3 dimensions (model pipeline: rendering → labelling → periodic merging), the located
+position lies within HALF A CELL of the true centre along every axis (modulo whole periods on periodic axes) and the located
+radius — `radius_from_volume` (regenerated) of the cluster's volume — within half a cell diagonal `ρ` of the true radius.
+Refinement therefore starts inside the basin in which the truth, a zero of the residual (`truth_zero_residual`), lies; that the
+trust-region iteration then converges to it is the numerical part of C05. -/
+theorem initial_estimate_within_resolution (axes : List Axis) (balls : List (List ℚ × ℚ)) (hwf : ∀ b ∈ balls, GridWF axes b.1)
+    (hd3 : axes.length = 1 ∨ axes.length = 2 ∨ axes.length = 3) (ρ : ℚ) (hρ : 0 ≤ ρ)
+    (hdiag : ∑ a ∈ Finset.range axes.length, ((axes.getD a default).dx / 2) ^ 2 ≤ ρ ^ 2)
+    (hmax : ℚ) (hh : ∀ a ∈ axes, a.dx ≤ hmax) (h0 : 0 ≤ hmax)
+    (hdist : ∀ b1 ∈ balls, ∀ b2 ∈ balls, b1 ≠ b2 → (b1.2 + b2.2 + hmax) ^ 2 ≤ cdist2 axes b1.1 b2.1)
+    (hres : ∀ b ∈ balls, FullyResolved axes b.1 b.2)
+    (b : List ℚ × ℚ) (hb : b ∈ balls) (c0 : ℕ) (hc0 : ballMask axes b.1 b.2 c0 = true) :
+    let mask := emulsionMask axes balls
+    let L := labelFn (shapeOf axes) mask
+    let cells := List.range (numCells (shapeOf axes))
+    let st := mergeLoop (fun a => (shapeOf axes).getD a 1) L (initSt (coordOf (shapeOf axes)) L cells)
+      (edgesOf (shapeOf axes) (perOf axes))
+    let cellVol : ℝ := ∏ a ∈ Finset.range axes.length, (((axes.getD a default).dx : ℚ) : ℝ)
+    (∃ m : ℕ → ℤ, (∀ a, a < axes.length → (axes.getD a default).periodic = false → m a = 0) ∧ ∀ a, a < axes.length →
+      |(axes.getD a default).lo + (axes.getD a default).dx * st.pos (st.lab c0) a
+        - (m a : ℚ) * (axes.getD a default).length - b.1.getD a 0| < (axes.getD a default).dx / 2) ∧
+    ∃ r : ℝ, Gen.radius_from_volume (((st.vol (st.lab c0) : ℚ) : ℝ) * cellVol) axes.length = .ok r ∧ |r - (b.2 : ℝ)| ≤ ρ := by
+  intro mask L cells st cellVol
+  have hd : 0 < axes.length := by omega
+  obtain ⟨_, hv, hpos⟩ := C01_emulsion_model axes balls hwf hd hmax hh h0 hdist hres b hb c0 hc0
+  refine ⟨hpos, ?_⟩
+  obtain ⟨r, hr, hrw⟩ := located_radius_within axes b.1 (hwf b hb) b.2 (hres b hb) ρ hρ hdiag hd3
+  refine ⟨r, ?_, hrw⟩
+  show Gen.radius_from_volume (((st.vol (st.lab c0) : ℚ) : ℝ) * cellVol) axes.length = .ok r
+  rw [hv]; push_cast; exact hr
+
+end start
+
 end DV.C05
